@@ -97,6 +97,9 @@ def rule_bits(c, prog):
 
 
 def run(c, prog):
+    from . import C16 as _C16
+    from sa import db as _dbm
+    _C16.rule_sername(core.Alias(c, "C03"), prog, _dbm.Database())     # `one PROP chunk per property name per class`: two canonical properties sharing a serialized name give two chunks of that name
     common.rule_configured_db(c, prog, "C03.cfgdb", ("rbx_binary",))
     rule_ids(c, prog)
     rule_bits(c, prog)
